@@ -268,7 +268,7 @@ def run(ctx):
                                         "an import is put into %d groups (decisions %s)" % (
                                             len(pushes), [(k[-30:], variant_name(v)) for k, v in path.decisions][:4]),
                                         ["%s:%d" % (gi.file, gi.line)])
-        r.floor(C, n_it, 4, "iteration paths of group_imports")
+        r.floor(C, n_it, 1, "iteration paths of group_imports")
 
 
 def visibility_tables(ctx, rid="R10-d"):
